@@ -78,11 +78,20 @@ def do_replay(pid, path):
     if 'extra_replay' in rec and hasattr(mod, 'replay_extra'):
         ok = mod.replay_extra(rec)
     else:
+        import warnings
+        from symx.core import Ctx
+        from symx.explore import reset_env
+        reset_env()
+        ctx = Ctx('conc', model=rec['model'], choices=rec['choices'])
         try:
-            ctx = run_concrete(mod.run, rec['params'], rec['model'], rec['choices'])
+            with warnings.catch_warnings():
+                warnings.simplefilter('ignore')
+                mod.run(ctx, rec['params'])
         except PathAbort:
             print("replay: assumptions not met by recorded model")
             return 3
+        except Exception as ex:  # noqa: a crash after the violated check is part of the symptom
+            print(f"  (run raised {type(ex).__name__}: {ex} after the checks below)")
         print(f"replay of {rec['label']} with params={rec['params']} model={rec['model']} choices={rec['choices']}")
         for lab, val in ctx.observations:
             print(f"  observed {lab} = {val}")
